@@ -151,7 +151,7 @@ pub fn property() -> Property {
             name: "twins",
             rule: "the C01 op alphabet (plus texts with tabs and set_tab_width) applied to a visible bar and to a twin hidden in one of four ways (hidden target, Term over a non-tty fd, member of a hidden MultiProgress, member of a visible MultiProgress removed after 0-5 ops incl. finishing); the hidden twin must make no terminal call / write no byte and all getters must agree after every op; non-trivial = a state change and a forced-draw op occurred",
             strategy: case_strategy,
-            cases: |t| t.pick(5_000, 200_000),
+            cases: |t| t.pick(5_000, 800_000),
             run: run_hidden,
             signature: no_signature,
             essential: &["way_hidden_target", "way_not_a_tty", "way_hidden_multi", "way_removed_from_multi", "state_change_and_forced_draw", "finished_before_removal"],
